@@ -148,8 +148,9 @@ func (r v2rec) encode(self peer.ID) []byte {
 func (r v2rec) wantVec(self peer.ID) Vec {
 	ini, resp, snd, rcv := r.parties(self)
 	st := datatransfer.Status(r.status)
-	ip := st == datatransfer.InitiatorPaused || st == datatransfer.BothPaused
-	rp := st == datatransfer.ResponderPaused || st == datatransfer.BothPaused
+	// the published numbering of the three deprecated paused statuses (literal, not the library's constants)
+	ip := r.status == 11 || r.status == 13
+	rp := r.status == 12 || r.status == 13
 	if ip || rp {
 		st = datatransfer.Ongoing
 	}
@@ -333,6 +334,22 @@ func TestC13_Migrate(t *testing.T) {
 					(len(got.Results) == 0 && got.LastResult != emptyVoucherStr) || (len(got.Results) > 0 && got.LastResult != got.Results[len(got.Results)-1]) {
 					mfail(t, log, "C19/voucher-views-after-upgrade", "record %d: first %s last %s lastResult %s, logs %v / %v", i, got.Voucher, got.LastVoucher, got.LastResult, got.Vouchers, got.Results)
 				}
+			case "C06":
+				if got.Core() != want.Core() {
+					mfail(t, log, "C06/state-changed-by-upgrade", "record %d reads back after the store upgrade as a state that was never current:\n got  %s\n want %s", i, got.Core(), want.Core())
+				}
+			case "C08":
+				if got.DataLimit != want.DataLimit || got.Queued != want.Queued || got.Received != want.Received {
+					mfail(t, log, "C08/limit-or-progress-changed-by-upgrade", "record %d: limit %d queued %d received %d after the store upgrade, was limit %d queued %d received %d", i, got.DataLimit, got.Queued, got.Received, want.DataLimit, want.Queued, want.Received)
+				}
+			case "C10":
+				if got.Queued != want.Queued || got.Sent != want.Sent || got.Received != want.Received || got.QueuedIdx != want.QueuedIdx || got.SentIdx != want.SentIdx || got.ReceivedIdx != want.ReceivedIdx || got.Voucher != want.Voucher {
+					mfail(t, log, "C10/progress-changed-by-upgrade", "record %d: recorded progress or opening voucher differ after the store upgrade:\n got  %s\n want %s", i, got.Core(), want.Core())
+				}
+			case "C11":
+				if got.InitPaused != want.InitPaused || got.RespPaused != want.RespPaused || got.BothPaused != want.BothPaused || got.SelfPaused != want.SelfPaused {
+					mfail(t, log, "C11/pause-flags-changed-by-upgrade", "record %d: initiator/responder/both/self paused = %v/%v/%v/%v after the store upgrade, was %v/%v/%v/%v", i, got.InitPaused, got.RespPaused, got.BothPaused, got.SelfPaused, want.InitPaused, want.RespPaused, want.BothPaused, want.SelfPaused)
+				}
 			case "C05":
 				// who initiated a channel, and in which direction, decides which messages are honoured on it
 				if got.ChannelID != want.ChannelID || got.IsPull != want.IsPull || got.Self != want.Self || got.Other != want.Other {
@@ -409,7 +426,7 @@ func TestC13_Migrate(t *testing.T) {
 				rig := &fsmRig{self: self, ds: ds, env: dbl.NewEnv(self), pub: newPubLog(), fence: fenceChid(self)}
 				rig.open(t, true)
 				spec := chanSpec{SelfInitiator: r.selfInit, Pull: r.pull, Other: r.other, TID: datatransfer.TransferID(r.tid), Base: r.base, Selector: r.selector, Voucher: r.vouchers[0]}
-				h := &hist{t: t, rig: rig, oracles: []oracle{oFrame{}, newOPause(), newOProbe()}}
+				h := &hist{t: t, rig: rig, oracles: []oracle{oFrame{}, newOPause(), newOProbe(), newOCleanup()}}
 				st, err := rig.flush(r.chid(self))
 				if err != nil {
 					mfail(t, log, "C13/query-failed", "%v", err)
@@ -420,7 +437,7 @@ func TestC13_Migrate(t *testing.T) {
 				var nextIdx int64 = 1 << 40
 				applied := 0
 				for k := rapid.IntRange(1, 8).Draw(t, "events"); k > 0 && !isTerminal(h.chans[0].last.Status); k-- {
-					ws := []weighted{{"PauseInitiator", 2}, {"ResumeInitiator", 2}, {"PauseResponder", 2}, {"ResumeResponder", 2}, {"NewVoucher", 2}, {"NewVoucherResult", 2}, {"Disconnected", 1}, {"Restart", 1}, {"SetDataLimit", 1}, {"Cancel", 1}, {"Accept", 1}, {"TransferInitiated", 1}}
+					ws := []weighted{{"PauseInitiator", 2}, {"ResumeInitiator", 2}, {"PauseResponder", 2}, {"ResumeResponder", 2}, {"NewVoucher", 2}, {"NewVoucherResult", 2}, {"Disconnected", 1}, {"Restart", 1}, {"SetDataLimit", 1}, {"Cancel", 2}, {"Error", 1}, {"Accept", 1}, {"TransferInitiated", 1}}
 					s := h.do(fill(t, Act{Kind: pick(t, ws, "mkind")}, &nextIdx))
 					applied += len(s.entries)
 				}
@@ -444,6 +461,12 @@ func TestC13_Migrate(t *testing.T) {
 			stats.For("C19").Class("views_after_store_upgrade")
 			if n > 0 {
 				stats.For("C19").Nontrivial(stats.FP("upgrade", fmt.Sprint(statuses), n))
+			}
+		case p == "C06" || p == "C08" || p == "C09" || p == "C10" || p == "C11":
+			stats.For(p).Eval()
+			stats.For(p).Class("through_store_upgrade")
+			if n > 0 {
+				stats.For(p).Nontrivial(stats.FP("upgrade", p, fmt.Sprint(statuses), n))
 			}
 		case p == "C05":
 			stats.For("C05").Eval()
